@@ -348,6 +348,33 @@ pub fn run_c19(tape: &[u8], cx: &Cx) -> Outcome {
         }
         o.tag("warm-manager");
     }
+    // In half of the cases the enumeration (or a bounded compilation) of e is observed first, while the
+    // derivatives of e do not exist yet: the reference closure below creates and caches all of them, and
+    // an enumeration that only misbehaves while it creates terms itself would otherwise never be seen.
+    let cold_iter: Option<Vec<usize>> = if t.bool_p(96) {
+        o.tag("cold-enumeration");
+        match catch(|| mgr.iter_derivatives(e).take(2 * rx::CLOSURE_CAP + 10).map(|r| r as *const _ as usize).collect::<Vec<_>>()) {
+            Ok(v) => Some(v),
+            Err(msg) => {
+                o.fail("C19/iter_derivatives-panics", format!("{}: {}", what, msg));
+                return o;
+            }
+        }
+    } else {
+        None
+    };
+    let cold_states: Option<Option<usize>> = if cold_iter.is_none() && t.bool_p(96) {
+        o.tag("cold-compilation");
+        match catch(|| mgr.try_compile(e, rx::CLOSURE_CAP).map(|a| a.num_states())) {
+            Ok(v) => Some(v),
+            Err(msg) => {
+                o.fail("C19/compile-panics", format!("{}: try_compile on a cold manager panicked: {}", what, msg));
+                return o;
+            }
+        }
+    } else {
+        None
+    };
     // independent closure: BFS with char_derivative over class boundary characters
     let closure = match deriv_closure(&mut mgr, &prog.atoms, e, rx::CLOSURE_CAP) {
         Some(c) => c,
@@ -359,12 +386,25 @@ pub fn run_c19(tape: &[u8], cx: &Cx) -> Outcome {
     }
     let mine: HashSet<usize> = closure.iter().map(|&r| ptr(r)).collect();
     // iter_derivatives: e first, no repetition, exactly the closure
-    let items: Vec<usize> = match catch(|| mgr.iter_derivatives(e).take(n * 2 + 10).map(|r| r as *const _ as usize).collect::<Vec<_>>()) {
-        Ok(v) => v,
-        Err(msg) => {
-            o.fail("C19/iter_derivatives-panics", format!("{}: {}", what, msg));
+    if let Some(Some(k)) = cold_states {
+        if k != n {
+            o.fail("C19/state-count", format!("{}: try_compile(e, {}) on a cold manager gives {} states; e has {} derivatives", what, rx::CLOSURE_CAP, k, n));
             return o;
         }
+    }
+    if let Some(None) = cold_states {
+        o.fail("C19/try_compile-none-within-bound", format!("{}: try_compile(e, {}) on a cold manager = None; e has {} derivatives", what, rx::CLOSURE_CAP, n));
+        return o;
+    }
+    let items: Vec<usize> = match cold_iter {
+        Some(v) => v,
+        None => match catch(|| mgr.iter_derivatives(e).take(n * 2 + 10).map(|r| r as *const _ as usize).collect::<Vec<_>>()) {
+            Ok(v) => v,
+            Err(msg) => {
+                o.fail("C19/iter_derivatives-panics", format!("{}: {}", what, msg));
+                return o;
+            }
+        },
     };
     o.evals += 4;
     if items.first() != Some(&ptr(e)) {
